@@ -972,3 +972,55 @@ def tunnel_encaps_units(props):
             return ['real code returned %r' % (r,)]
         return W.wf_tunnel_encaps(binascii.a2b_hex(r['hex']))
     return [Unit('TunnelEncaps.construct[structure]', qual, build, spec, kind='codec', props=props, request=request, expected=expected)]
+
+
+# ================================================================ construct-only family: PMSI tunnel attribute (RFC 6514 section 5)
+def pmsi_units(props):
+    qual = 'yabgp.message.attribute.pmsitunnel.PMSITunnel.construct'
+
+    def args(it):
+        leaf = sym_int(it, 'leaf_info_required', 0, 255)
+        label = sym_int(it, 'pmsi_label', 0, 2 ** 20 - 1)
+        v6 = it.p.branch(z3.Bool('tunnel_id_is_ipv6'))
+        ip = sym_int(it, 'tunnel_ip', 0, 2 ** (128 if v6 else 32) - 1)
+        it._pmsi = (leaf, label, ip, v6)
+        return [{'mpls_label': [label], 'tunnel_id': (STR.ip6 if v6 else STR.ip4)(ip), 'tunnel_type': 6, 'leaf_info_required': leaf}]
+
+    def expect(it, value, *a):
+        leaf, label, ip, v6 = it._pmsi
+        body = SP.cat(SP.be(leaf, 1), b'\x06', SP.be(mk_num(to_term(label) * 16), 3), SP.be(ip, 16 if v6 else 4))
+        return 'ret', A.attr(22, body)
+    return [CodecUnit('PMSITunnel.construct[ingress replication]', qual, args, expect, props=tuple(props))]
+
+
+# ================================================================ construct-only family: SR-TE policy NLRI (SAFI 73)
+def srte_units(props):
+    """NLRI = length in BITS (96 or 192), distinguisher (4), color (4), endpoint (4 or 16); and its MP_REACH envelope"""
+    us = []
+
+    def nlri_args(it):
+        dist, color = sym_int(it, 'distinguisher', 0, 2 ** 32 - 1), sym_int(it, 'color', 0, 2 ** 32 - 1)
+        v6 = it.p.branch(z3.Bool('endpoint_is_ipv6'))
+        ep = sym_int(it, 'endpoint', 0, 2 ** (128 if v6 else 32) - 1)
+        it._srte = (dist, color, ep, v6)
+        return [{'distinguisher': dist, 'color': color, 'endpoint': (STR.ip6 if v6 else STR.ip4)(ep)}]
+
+    def nlri_enc(it):
+        dist, color, ep, v6 = it._srte
+        body = SP.cat(SP.be(dist, 4), SP.be(color, 4), SP.be(ep, 16 if v6 else 4))
+        return SP.cat(SP.be(8 * (24 if v6 else 12), 1), body)
+    us.append(CodecUnit('IPv4SRTE.construct', 'yabgp.message.attribute.nlri.ipv4_srte.IPv4SRTE.construct', nlri_args,
+                        lambda it, d: ('ret', nlri_enc(it)), props=tuple(props)))
+
+    def mp_args(it):
+        v = nlri_args(it)[0]
+        nh = sym_int(it, 'nexthop', 0, 2 ** 32 - 1)
+        it._srte_nh = nh
+        return [{'afi_safi': (1, 73), 'nexthop': STR.ip4(nh), 'nlri': v}]
+
+    def mp_expect(it, value):
+        body = SP.cat(b'\x00\x01\x49\x04', SP.be(it._srte_nh, 4), b'\x00', nlri_enc(it))
+        return 'ret', SP.cat(b'\x90\x0e', SP.be(SP.blen(body), 2), body)
+    us.append(CodecUnit('MpReachNLRI.construct[SR-TE policy]', 'yabgp.message.attribute.mpreachnlri.MpReachNLRI.construct', mp_args,
+                        mp_expect, props=tuple(props)))
+    return us
